@@ -104,6 +104,50 @@ class Ctx:
             info = self.sources.classes.get(b)
         return out
 
+    def may_construct(self, name):
+        """classes (with their base classes) that a function / method of this NAME may instantiate, transitively: syntactic closure over
+        the names of the functions it calls (every method of that name in any class), `Class(...)`, `self.__class__(...)` (the defining
+        class and its subclasses), mido constructors, and the result classes of assumed contracts.  Used to decide which field arrays a
+        callee can possibly write besides its `modifies` clause (A: a function writes fields of fresh objects only through constructors)."""
+        cache = self.__dict__.setdefault("_mc_cache", {})
+        if name in cache:
+            return cache[name]
+        out, seen, stack = set(), set(), [name]
+        subclasses = lambda c: [k for k in self.sources.classes if c in self.mro(k)]
+        while stack:
+            nm = stack.pop()
+            if nm in seen:
+                continue
+            seen.add(nm)
+            bodies = [(c, info["methods"][nm]) for c, info in self.sources.classes.items() if nm in info["methods"]]
+            if nm in self.sources.functions:
+                bodies.append((None, self.sources.functions[nm]))
+            if nm in self.sources.classes:
+                out |= set(self.mro(nm))
+                stack.append("__init__")
+            for q, c in self.contracts.items():
+                if q.split("#")[0].split(".")[-1] == nm and c.result and "ref:" in c.result:
+                    out |= set(self.mro(c.result.split("ref:")[-1].rstrip("?")))
+            for cls, fn in bodies:
+                for n in ast.walk(fn):
+                    if isinstance(n, ast.Call):
+                        f = n.func
+                        if isinstance(f, ast.Name):
+                            stack.append(f.id)
+                        elif isinstance(f, ast.Attribute):
+                            if f.attr == "__class__" and cls is not None:
+                                for k in subclasses(cls):
+                                    out |= set(self.mro(k))
+                                    stack.append(k)
+                            elif isinstance(f.value, ast.Name) and f.value.id == "mido":
+                                out.add("MidoMsg")
+                            else:
+                                stack.append(f.attr)
+                    elif isinstance(n, ast.Attribute) and isinstance(n.ctx, ast.Load):
+                        stack.append(n.attr)          # properties are calls too
+        cache[name] = out
+        return out
+
     def find_method(self, cls, name):
         for c in self.mro(cls):
             info = self.sources.classes.get(c)
@@ -943,7 +987,46 @@ class Exec:
             st.pc.append(safe_forall([k], z3.Implies(z3.And(0 <= k, k < n), arr[k] == val.v), patterns=[arr[k]]))
             st.pc += [p for p in st2.pc[len(st.pc) - 1:] if False]
             return self.new_list(st, elem, n, arr)
+        if isinstance(src, ListV) and g.ifs and isinstance(e.elt, ast.Name) and isinstance(g.target, ast.Name) and e.elt.id == g.target.id:
+            return self.filter_comp(e, g, src, st)
         raise VCError(f"list comprehension over {src!r} (filter={bool(g.ifs)}) at line {e.lineno}")
+
+    def filter_comp(self, e, g, src, st):
+        """[x for x in L if cond(x)] over a heap list: a new list R with ghost index maps sg: R -> L (strictly increasing, R[k] = L[sg(k)],
+        cond holds there) and tau: L -> R (defined where cond holds, inverse of sg).  These facts characterise the filtered list exactly."""
+        n = self.llen(st, src)
+        arrL = (getattr(src, "frozen_heap", None) or st.heap)["@el"][src.v]
+        x0 = fresh("fx")
+        st2 = st.cp()
+        el0 = wrap(x0, src.elem)
+        if getattr(src, "frozen_heap", None) is not None and isinstance(el0, (Ref, ListV)):
+            el0.frozen_heap = src.frozen_heap
+        self.bind(g.target, el0, st2)
+        sil, self.silent = self.silent, True            # (safety of the condition is checked once below, on an arbitrary element)
+        try:
+            conds = [self.truth(self.ev(c, st2), st2) for c in g.ifs]
+        finally:
+            self.silent = sil
+        cond0 = z3.And(conds) if len(conds) > 1 else conds[0]
+        cond = lambda t: z3.substitute(cond0, (x0, t))
+        # safety: evaluating the condition on any element of L raises nothing
+        j0 = fresh("j")
+        st3 = st.cp()
+        st3.pc.append(z3.And(0 <= j0, j0 < n))
+        self.bind(g.target, self.lget(st3, src, j0), st3)
+        for c in g.ifs:
+            self.ev(c, st3)
+        m = fresh("flen")
+        arrR = fresh("flt", z3.ArraySort(I, I))
+        sg = z3.Function(f"sg!{fresh('f')}", I, I)
+        tau = z3.Function(f"tau!{fresh('f')}", I, I)
+        k, k2, j = fresh("k"), fresh("k"), fresh("j")
+        st.pc.append(z3.And(0 <= m, m <= n))
+        st.pc.append(safe_forall([k], z3.Implies(z3.And(0 <= k, k < m), z3.And(0 <= sg(k), sg(k) < n, arrR[k] == arrL[sg(k)], cond(arrL[sg(k)]), tau(sg(k)) == k)), patterns=[arrR[k]]))
+        st.pc.append(safe_forall([k, k2], z3.Implies(z3.And(0 <= k, k < k2, k2 < m), sg(k) < sg(k2)), patterns=[z3.MultiPattern(sg(k), sg(k2))]))
+        st.pc.append(safe_forall([j], z3.Implies(z3.And(0 <= j, j < n, cond(arrL[j])), z3.And(0 <= tau(j), tau(j) < m, sg(tau(j)) == j, arrR[tau(j)] == arrL[j])), patterns=[arrL[j]]))
+        self.notes.append("filtered comprehension: characterised by ghost index maps (strictly increasing selection of exactly the elements that satisfy the condition)")
+        return self.new_list(st, src.elem, m, arrR)
 
     def range_list(self, call, st):
         args = [self.ev(a, st) for a in call.args]
@@ -1516,6 +1599,8 @@ class Exec:
             def visit_ListComp(self, n):
                 self.generic_visit(n)
                 has_call = any(ex.is_user_call(c) for c in ast.walk(n.elt)) or any(ex.is_user_call(c) for g in n.generators for c in ast.walk(g.iter))
+                if has_call and not any(ex.is_user_call(c) for c in ast.walk(n.elt)) and not any(ex.is_user_call(c) for g in n.generators for i_ in g.ifs for c in ast.walk(i_)):
+                    return n          # only the iterable contains a user call: it is hoisted like any other call, the comprehension stays one
                 if not has_call or len(n.generators) != 1 or n.generators[0].ifs and False:
                     return n
                 g = n.generators[0]
@@ -1543,6 +1628,9 @@ class Exec:
         found = []
 
         def visit(n, blocked):
+            if isinstance(n, ast.ListComp) and len(n.generators) == 1:
+                visit(n.generators[0].iter, blocked)      # the iterable of a comprehension is evaluated once, before anything else of it
+                return
             if isinstance(n, (ast.Lambda, ast.ListComp, ast.GeneratorExp, ast.DictComp, ast.SetComp)):
                 return
             if isinstance(n, ast.BoolOp):
@@ -1988,7 +2076,7 @@ class Exec:
                 continue
             if isinstance(n, (ast.For, ast.While)):
                 locs.append((n.lineno, n.col_offset))
-            elif isinstance(n, ast.ListComp) and len(n.generators) == 1 and (any(self.is_user_call(c) for c in ast.walk(n.elt)) or any(self.is_user_call(c) for c in ast.walk(n.generators[0].iter))):
+            elif isinstance(n, ast.ListComp) and len(n.generators) == 1 and (any(self.is_user_call(c) for c in ast.walk(n.elt)) or any(self.is_user_call(c) for i_ in n.generators[0].ifs for c in ast.walk(i_))):
                 locs.append((n.lineno, n.col_offset))
         return {loc: f"L{k}" for k, loc in enumerate(sorted(set(locs)))}
 
